@@ -1,4 +1,5 @@
 import Copia.Gen.Constants
+import Copia.Model.Find
 /-!
 # Model of the hub: `serve.rs` (handlers, `safe_join`), `wire.rs` (framing, `cas_decide`)
 
@@ -127,6 +128,22 @@ def isDir (t : HTree) (key : List (List Char)) : Bool :=
 def parentIsFile (t : HTree) (key : List (List Char)) : Bool :=
   (List.range key.length).any fun n => 0 < n && (hget t (key.take n)).isSome
 
+/-- `-N` suffix of the N-th alternative conflict-copy name (`N = 0`: the plain name) -/
+def ccSuffix (n : Nat) : List Char := if n = 0 then [] else '-' :: Copia.Meta.decimal n
+
+/-- something lives at the key: a file, or a directory (a proper prefix of some file's key) -/
+def occupied (t : HTree) (key : List (List Char)) : Bool := (hget t key).isSome || isDir t key
+
+/-- The conflict-copy name a stale Put lands on (D13 repair): `<p>.conflict-<short>`, unless a DIFFERENT
+file (or a directory) already lives there — then `…-1`, `…-2`, … until a name is free or already holds
+exactly these bytes' hash. Runs under the commit lock. Fuel = tree size + 1 (a free name exists among that many). -/
+def ccPick {H} [DecidableEq H] (hash : Bytes → H) (t : HTree) (p short : List Char) (h : H) : Nat → Nat → List Char
+  | 0, n => cnameOf p (short ++ ccSuffix n)
+  | fuel+1, n =>
+    let c := cnameOf p (short ++ ccSuffix n)
+    if occupied t (osResolve c) && decide ((hget t (osResolve c)).map hash ≠ some h) then ccPick hash t p short h fuel (n+1)
+    else c
+
 /-- one request against the tree (`hash` = BLAKE3, `short` = first 12 hex of a hash). A `Put`
 streams exactly `min len available` bytes (`Read::take`). -/
 def handle {H} [DecidableEq H] (hash : Bytes → H) (short : H → List Char) (t : HTree)
@@ -160,7 +177,7 @@ def handle {H} [DecidableEq H] (hash : Bytes → H) (short : H → List Char) (t
         else if casCommit cur expected then
           { tree := hins t (keyOf p) body, reply := some (.putResult true (some h)), consumed := body.length }
         else
-          { tree := hins t (osResolve (cnameOf p (short h))) body, reply := some (.putResult false cur), consumed := body.length }
+          { tree := hins t (osResolve (ccPick hash t p (short h) h (t.length + 1) 0)) body, reply := some (.putResult false cur), consumed := body.length }
   | .delete p expected =>
     match safeJoin [] p with
     | none => { tree := t, reply := some (.error "bad path"), consumed := 0 }
